@@ -11,6 +11,8 @@ using namespace jenv;
 
 static int codeholder_calls, codeholder_calls_locked;
 static Error stub_flatten, stub_resolve, stub_relocate; static size_t stub_size_before, stub_size_after; static int code_size_calls;
+static uint8_t* g_fill_base;    // start of the mapping handed out in h_runtime_add_fill
+static bool g_scribble_code;   // h_runtime_add_fill: stands for the section bytes _add copies into the span (the code holder here has no sections)
 static inline void ch_call() { codeholder_calls++; if (lock_depth != 0) codeholder_calls_locked++; }
 ASMJIT_BEGIN_NAMESPACE
 Error CodeHolder::flatten() noexcept { ch_call(); return stub_flatten; }
@@ -19,6 +21,7 @@ size_t CodeHolder::code_size() const noexcept { ch_call(); return code_size_call
 Error CodeHolder::relocate_to_base(uint64_t, RelocationSummary* summary) noexcept {
   ch_call();
   if (summary) summary->code_size_reduction = stub_size_before - stub_size_after;
+  if (g_scribble_code) for (uint32_t i = 4; i < 24; i++) g_fill_base[i] = 0xEE;
   return stub_relocate;
 }
 ASMJIT_END_NAMESPACE
@@ -76,3 +79,38 @@ template<bool THEN_RELEASE> static void all_outcomes(size_t before, size_t after
 }
 HARNESS h_runtime_add_exact() { all_outcomes<true>(64, 64); }
 HARNESS h_runtime_add_shrunk() { all_outcomes<false>(200, 130); }
+
+// _add with kFillUnusedMemory: the tail that span.shrink() gives back is filled before the allocator lock is released,
+// never afterwards (see h_lockmem.cpp for the rule). Granularity scaled to 4 bytes: a fresh block is 512 bytes (filled on
+// creation), the code takes granules [1,6) estimated and [1,5) final, so granule 5 (bytes 20..23) is given back.
+static uint32_t fill_probe; static bool fill_probe_free_at_unlock; static uint8_t fill_probe_at_unlock; static int unlocks_seen;
+static void runtime_unlock_hook() {
+  JitAllocatorBlock* b = pool(0)->blocks.first();
+  unlocks_seen++;
+  fill_probe_free_at_unlock = b != nullptr && !((b->_used_bit_vector[0] >> (fill_probe / 4)) & 1);
+  fill_probe_at_unlock = g_fill_base[fill_probe];
+}
+HARNESS h_runtime_add_fill() {
+  uint32_t pattern = nondet_u32();
+  JitAllocatorPrivateImpl* im = make_impl(0x04 /* kFillUnusedMemory */, 4, 64 * 4, 1, pattern); JitAllocatorPool* pl = pool(0);
+  JitRuntime* rt = reinterpret_cast<JitRuntime*>(rt_mem); CodeHolder* code = reinterpret_cast<CodeHolder*>(code_mem);
+  rt->_allocator._impl = im;
+  codeholder_calls = codeholder_calls_locked = 0; code_size_calls = 0;
+  stub_flatten = Error::kOk; stub_resolve = Error::kOk; stub_relocate = Error::kOk; stub_size_before = 20; stub_size_after = 13;
+  // the mapping starts at the first 4-byte aligned address of the arena (the solver's objects are aligned; the natively
+  // compiled translation of this unit does not keep the alignas of the arena, and the byte fill requires aligned spans)
+  g_fill_base = arena_at(arena_rx, (4 - (uintptr_t(arena_rx) & 3)) & 3);
+  vm_alloc_fail = false; vm_next_rx = g_fill_base; vm_next_rw = vm_next_rx;
+  g_scribble_code = true;
+  fill_probe = nondet_u8() & 63; fill_probe_free_at_unlock = false; unlocks_seen = 0; on_unlock = runtime_unlock_hook;
+  void* fn = nullptr;
+  Error err = rt->JitRuntime::_add(&fn, code);
+  verif_observe(uint64_t(err));
+  V_ASSERT(err == Error::kOk && fn == static_cast<void*>(g_fill_base + 4) && lock_depth == 0 && unlocks_seen == 2, "_add (fill): succeeds with two critical sections (alloc, shrink)");
+  V_ASSERT(im->allocation_count == 1 && pl->blocks.first() != nullptr && pl->blocks.first()->_used_bit_vector[0] == 0x1F, "_add (fill): padding + 4 granules of code stay used");
+  uint8_t now = g_fill_base[fill_probe]; verif_observe(now);
+  if (fill_probe_free_at_unlock) { V_ASSERT(now == fill_probe_at_unlock, "_add (fill): no byte of a granule that is free when the lock is released is written afterwards"); V_WITNESS("add-fill-free-byte"); }
+  if (fill_probe >= 20 && fill_probe < 24) { V_ASSERT(fill_probe_free_at_unlock && now == uint8_t(pattern >> (8 * (fill_probe & 3))), "_add (fill): the tail given back is free at the unlock and carries the fill pattern"); V_WITNESS("add-fill-tail"); }
+  V_ASSERT(codeholder_calls_locked == 0 && rw_depth == 0, "_add (fill): code holder never entered under the lock, memory executable again");
+  g_scribble_code = false;
+}
